@@ -95,3 +95,33 @@ Proof. exact closed_before_reason_refuted. Qed.
 Theorem C07_no_recheck_refuted : exists sched, no_codeless (rdr_run true false 1 sched) = false.
 Proof. exact no_recheck_refuted. Qed.
 Print Assumptions C07_no_recheck_refuted.
+
+(* ---------- several callers, one queue of errors ---------- *)
+From AV Require Import Model.ExcOnce Proofs.ExcOnceP.
+From Coq Require Import Permutation.
+(* any number of threads in check_for_exceptions, statement by statement, EVERY schedule: what
+   has been raised together with what is still queued is exactly what was queued - no error is
+   reported by two callers, none is lost *)
+Theorem C07_concurrent_raised_once_nothing_lost : forall errs n sched,
+  Permutation (x_queue (exc_run true errs n sched) ++ x_raised (exc_run true errs n sched)) errs.
+Proof. exact raised_once_nothing_lost. Qed.
+Print Assumptions C07_concurrent_raised_once_nothing_lost.
+
+Theorem C07_concurrent_no_error_raised_twice : forall errs n sched,
+  NoDup errs -> NoDup (x_raised (exc_run true errs n sched)).
+Proof. exact raised_no_duplicates. Qed.
+Print Assumptions C07_concurrent_no_error_raised_twice.
+
+(* read off the source on every run: the queued error is read, then removed by value in one list
+   operation that fails if another thread took it, inside a try whose handler returns *)
+Theorem C07_source_take_by_value : excs_shape_ok = true.
+Proof. vm_compute. reflexivity. Qed.
+Print Assumptions C07_source_take_by_value.
+
+(* read the head, then delete whatever is the head by then (the code before fix f42e173): one
+   return reported twice, the close reason behind it lost *)
+Theorem C07_blind_delete_refuted :
+  exists sched, x_raised (exc_run false [312; 404]%nat 2 sched) = [312; 312]%nat /\
+                x_queue (exc_run false [312; 404]%nat 2 sched) = [].
+Proof. exact blind_delete_refuted. Qed.
+Print Assumptions C07_blind_delete_refuted.
